@@ -253,6 +253,18 @@ def _drive_nearins(sc):
                 blocks, end = _blocks(r1[0], ops)
                 tmeta[name] = {"segs": [{"rs": r1[0], "re": end, "cig": [[OPC[o], m] for o, m in ops], "qlen": len(r1[2] + r2[2]), "blocks": blocks}],
                                "allele": a, "so": -48, "eo": tail}
+    # the read carries an unrelated DELETION of 4-8 bases that swallows the (SNV) variant: it has no base there, so no allele
+    if kind == "snv":
+        for dl in (4, 6, 8):
+            for off in (1, 2, 3, dl - 1):
+                d0 = P - off                                   # first deleted base
+                seq1, seq2 = ref[P - 45:d0], ref[d0 + dl:P + 45]
+                ops = [("M", len(seq1)), ("D", dl), ("M", len(seq2))]
+                name = f"t{len(treads):04d}"
+                treads.append({"name": name, "flag": 0, "ref": 0, "pos": P - 45, "cigar": W.cigar_str(ops), "seq": seq1 + seq2, "rg": "rg1"})
+                blocks, end = _blocks(P - 45, ops)
+                tmeta[name] = {"segs": [{"rs": P - 45, "re": end, "cig": [[OPC[o], m] for o, m in ops], "qlen": len(seq1 + seq2), "blocks": blocks}],
+                               "allele": -1, "so": -45, "eo": 45, "swallowed": True}
     # an alignment whose reference span exceeds 100 kb (a long skip BEHIND the variant): still one usable alignment
     for a in (0, 1):
         hp = W.Haplotype(ref, [V], [a])
@@ -276,7 +288,8 @@ def _drive_nearins(sc):
                 got = {r.name: {v.position: v.allele for v in r} for r in rs}
                 for name, m in tmeta.items():
                     vd = {"pos": V.pos, "reflen": len(V.ref), "altlen": len(V.alt), "kind": {"snv": 1, "ins": 2, "del": 3, "mnp": 4}[V.kind],
-                          "truth": m["allele"], "det": int(got.get(name, {}).get(V.pos, -1)), "clean": True, "unshiftable": True}
+                          "truth": m["allele"], "det": int(got.get(name, {}).get(V.pos, -1)), "clean": not m.get("swallowed"),
+                          "unshiftable": True}     # swallowed: the read has NO base at the variant (truth -1: any allele is wrong)
                     evs.append({"ev": "Detect", "withref": withref, "segs": m["segs"], "vars": [vd, dict(vd)], "deco": "tail", "so": m["so"],
                                 "eo": m["eo"]})
         bam = W.write_bam(os.path.join(d, "r.bam"), [("chr1", len(ref))], reads, [{"ID": "rg1", "SM": "s1"}])
